@@ -1,6 +1,73 @@
-(* Properties_C11_ebpps.v — being filled in *)
-From Coq Require Import NArith List.
-From DS Require Import EbppsCodecDefs.
-Theorem C11_ebpps_stub : sk_empty (empty_sk 3) = true.
-Proof. reflexivity. Qed.
-Print Assumptions C11_ebpps_stub.
+(* Properties_C11_ebpps.v — truncated or corrupted EBPPS images: every strict prefix of an image is rejected by both
+   readers; whatever a reader accepts from ARBITRARY bytes lies inside the bytes it was given (the decoders are total
+   Coq functions: every byte string is either rejected or decoded), with the one documented exception that an image with
+   the EMPTY flag makes the constructor reserve k items.  Only statements; proofs live in EbppsCodecProofs.v.  The model
+   is EbppsCodecDefs.v (the readers as repaired by fixes/11_ebpps_c_range.patch + 11_ebpps_stream_state.patch + 11_ebpps_zero_c_image.patch; the unrepaired readers are in
+   Regression_ebppscodec.v); a read outside the supplied bytes is [rd] returning None, which makes the reader reject. *)
+From Coq Require Import NArith List Bool Lia Arith.
+From DS Require Import Word ThetaCodecDefs EbppsCodecDefs EbppsCodecProofs.
+Import ListNotations.
+Local Open Scope N_scope.
+
+(* every strict prefix of the image of a well-formed sketch is rejected: bytes reader ... *)
+Theorem C11_ebpps_prefix_bytes : forall s n, wf s -> (n < length (enc s))%nat -> dec_bytes (firstn n (enc s)) = None.
+Proof. exact prefix_bytes. Qed.
+
+(* ... and stream reader (a stream that ends there) *)
+Theorem C11_ebpps_prefix_stream : forall s n, wf s -> (n < length (enc s))%nat -> dec_stream (firstn n (enc s)) = None.
+Proof. exact prefix_stream. Qed.
+
+(* totality on ARBITRARY bytes: each reader either rejects or yields a sketch *)
+Theorem C11_ebpps_total : forall bytes,
+  (dec_bytes bytes = None \/ exists s, dec_bytes bytes = Some s) /\
+  (dec_stream bytes = None \/ exists s used, dec_stream bytes = Some (s, used)).
+Proof.
+  intros bytes. split.
+  - destruct (dec_bytes bytes) as [s|]; [right; eauto|left; reflexivity].
+  - destruct (dec_stream bytes) as [[s u]|]; [right; eauto|left; reflexivity].
+Qed.
+
+(* ARBITRARY bytes, bytes reader: an accepted image has k in range, and either is an empty sketch or all its content
+   (48 bytes of fields, 8 per full item, 8 for the partial item) lies inside the supplied bytes, with exactly floor(C)
+   items for a C that is a non-negative double below 2^32, and a partial item iff C has a fractional part *)
+Theorem C11_ebpps_bytes_accept_bounded : forall bytes s, dec_bytes bytes = Some s ->
+  (1 <= e_k s /\ e_k s <= MAX_K) /\ (8 <= length bytes)%nat /\
+  (s = empty_sk (e_k s) \/
+   ((content_bytes s <= length bytes)%nat /\ length (e_data s) = N.to_nat (c_floor (e_c s)) /\
+    c_negative (e_c s) = false /\ c_below_2_32 (e_c s) = true /\
+    (match e_part s with Some _ => c_has_frac (e_c s) = true | None => c_has_frac (e_c s) = false end))).
+Proof. exact bytes_accept_bounded. Qed.
+
+(* ARBITRARY bytes, stream reader: the same, and it never consumes more than it was given (8 bytes for an empty image,
+   exactly the content otherwise) *)
+Theorem C11_ebpps_stream_accept_bounded : forall bytes s used, dec_stream bytes = Some (s, used) ->
+  (1 <= e_k s /\ e_k s <= MAX_K) /\ (used <= length bytes)%nat /\
+  ((s = empty_sk (e_k s) /\ used = 8%nat) \/
+   (used = content_bytes s /\ length (e_data s) = N.to_nat (c_floor (e_c s)) /\
+    c_negative (e_c s) = false /\ c_below_2_32 (e_c s) = true /\
+    (match e_part s with Some _ => c_has_frac (e_c s) = true | None => c_has_frac (e_c s) = false end))).
+Proof. exact stream_accept_bounded. Qed.
+
+(* the sample reader alone, ARBITRARY bytes: fewer bytes than C announces are rejected *)
+Theorem C11_ebpps_sample_short : forall flp b,
+  (forall c, rd 8 0 b = Some c -> N.of_nat (length b) < sample_need c) -> dec_sample flp b = None.
+Proof. exact dec_sample_short. Qed.
+
+(* non-vacuity: the 72-byte image of Properties_C10_ebpps.C10_ex cut at 71, 48, 40, 8 and 0 bytes; an 8-byte empty image cut at 7 *)
+Definition C11_ex : esk :=
+  {| e_k := 4; e_n := 3; e_cw := 4613937818241073152; e_wmax := 4607182418800017408; e_rho := 4607182418800017408;
+     e_c := 4612811918334230528; e_data := [7; 18446744073709551615]; e_part := Some 5 |}.
+Example C11_ebpps_nonvacuous :
+  length (enc C11_ex) = 72%nat /\
+  map (fun n => dec_bytes (firstn n (enc C11_ex))) [71; 64; 48; 40; 8; 0]%nat = [None; None; None; None; None; None] /\
+  map (fun n => dec_stream (firstn n (enc C11_ex))) [71; 64; 48; 40; 8; 0]%nat = [None; None; None; None; None; None] /\
+  dec_stream (firstn 7 (enc (empty_sk 9))) = None /\ dec_bytes (firstn 7 (enc (empty_sk 9))) = None /\
+  dec_bytes (enc C11_ex) = Some C11_ex.
+Proof. vm_compute. repeat split. Qed.
+
+Print Assumptions C11_ebpps_prefix_bytes.
+Print Assumptions C11_ebpps_prefix_stream.
+Print Assumptions C11_ebpps_total.
+Print Assumptions C11_ebpps_bytes_accept_bounded.
+Print Assumptions C11_ebpps_stream_accept_bounded.
+Print Assumptions C11_ebpps_sample_short.
